@@ -44,6 +44,8 @@ CORPUS_KEYS = {
     "and-of-if-with-shortcircuit-branch": "C01 corpus and-of-if-with-shortcircuit-branch",
     "catch-in-callee-then-throw-to-caller": "C01 corpus catch-in-callee-then-throw-to-caller",
     "union-case-in-if-in-toplevel-while": "C01 corpus union-case-in-if-in-toplevel-while",
+    "two-lambdas-one-capturing-c-backend": "C01 corpus two-lambdas-one-capturing-c-backend",
+    "relt-unimplemented-in-interpreter": "C01 corpus relt-unimplemented-in-interpreter",
 }
 
 _uniq = itertools.count()
